@@ -389,6 +389,10 @@ func runC17(c *wk.Ctx) {
 			c17ForeignRefs(c)
 			return
 		}
+		if idx == 24 {
+			c17DeepPaths(c)
+			return
+		}
 		if idx%5 == 4 {
 			c17StructCase(c, r, idx)
 			return
@@ -511,6 +515,19 @@ func c17Judge(c *wk.Ctx, t schema.Type, descr string, root any, site c17Site, op
 	}
 	if site.keyName != "" && !strings.Contains(err.Error(), site.keyName) {
 		c.Violation("C17:undeclared-key-not-named:"+op, fmt.Sprintf("%s: the message for an undeclared key does not name it: %v", op, err), wit)
+		return
+	}
+	// a second look at the value that was just rejected names the same element
+	var err2 error
+	if p, s2, msg, _ := wk.Guard(func() { err2 = call() }); p {
+		c.Violation("C17:panic:"+op+":"+s2, op+" panicked when the rejected value was looked at again: "+msg, wit)
+		return
+	}
+	c.Count("second_looks")
+	var ce2 *schema.ConstraintError
+	if err2 == nil || !errors.As(err2, &ce2) || strings.Join(normPath(ce2.Path), "\x00") != strings.Join(site.path, "\x00") {
+		wit["second_error"] = fmt.Sprint(err2)
+		c.Violation("C17:second-look-differs:"+op+":"+site.kind, fmt.Sprintf("%s: the first rejection names %v, the same call on the same value again gives: %v", op, ce.Path, err2), wit)
 	}
 }
 
